@@ -37,11 +37,9 @@ def Mem.readByte (m : Mem) (region addr : Nat) : Except String Nat :=
     let b := m.regions.getD s ByteArray.empty
     if addr < b.size then pure (b.get! addr).toNat else throw s!"read outside region {region} at {addr} (size {b.size})"
 
-def Mem.readUnsigned (m : Mem) (region addr n : Nat) : Except String Nat := do
-  let mut v := 0
-  for i in [0:n] do
-    v := v + (← m.readByte region (addr + i)) * 256 ^ i
-  return v
+/-- little-endian unsigned value of `n` bytes (structural fold: `Props/C01.scatter_readback`) -/
+def Mem.readUnsigned (m : Mem) (region addr n : Nat) : Except String Nat :=
+  (List.range n).foldlM (fun v i => do return v + (← m.readByte region (addr + i)) * 256 ^ i) 0
 
 def toSigned (v bits : Nat) : Int := if v ≥ 2 ^ (bits - 1) then (v : Int) - (2 : Int) ^ bits else v
 
@@ -84,16 +82,24 @@ def memFm (m : Mem) (fm : FM) (y x c : Nat) : Int :=
 def gather (m : Mem) (fm : FM) : Except String (Array Int) := do
   return (← gatherList m fm).toArray
 
+/-- what a stored element reads back as: the value modulo `2^(8n)`, reinterpreted as signed if the feature map is -/
+def wrapElem (n : Nat) (signed : Bool) (v : Int) : Int :=
+  let u := (v % (2 : Int) ^ (8 * n)).toNat
+  if signed then toSigned u (8 * n) else u
+
+
+/-- one write of `scatter`: element `v` at address `addr`, inside the region -/
+def writeElem (region nbytes : Nat) (b : ByteArray) (addr : Nat) (v : Int) : Except String ByteArray :=
+  if addr + nbytes > b.size then throw s!"write outside region {region} at {addr} (size {b.size})"
+  else pure (putElem b addr nbytes v)
+
+/-- the writes of `scatter` on the bytes of the region, in NHWC order: element `(y, x, c)` of `vals` goes to `fmAddr fm y x c` -/
+def scatterBytes (fm : FM) (vals : Array Int) (b0 : ByteArray) : Except String ByteArray :=
+  (coords3 fm.height fm.width fm.depth).foldlM
+    (fun b (y, x, c) => writeElem fm.region fm.elemBytes b (fmAddr fm y x c) (vals.getD ((y * fm.width + x) * fm.depth + c) 0)) b0
+
 def scatter (m : Mem) (fm : FM) (vals : Array Int) : Except String Mem :=
-  m.modifyRegion fm.region fun b0 => do
-    let mut b := b0
-    for y in [0:fm.height] do
-      for x in [0:fm.width] do
-        for c in [0:fm.depth] do
-          let addr := fmAddr fm y x c
-          if addr + fm.elemBytes > b.size then throw s!"write outside region {fm.region} at {addr} (size {b.size})"
-          b := putElem b addr fm.elemBytes (vals.getD ((y * fm.width + x) * fm.depth + c) 0)
-    return b
+  m.modifyRegion fm.region (scatterBytes fm vals)
 
 /-! ## Side information -/
 
